@@ -1,6 +1,7 @@
 package rules
 
 import (
+	"os"
 	"fmt"
 	"go/ast"
 	"go/constant"
@@ -22,6 +23,7 @@ func init() {
 
 func runC18(c *Ctx) {
 	c.checkClosedFormEigens()
+	c.checkPijAnalytic()
 	c.checkRateMatrixLiterals()
 	c.checkProteinTables()
 	c.checkModelSiblingsC18()
@@ -625,6 +627,10 @@ func (a frac) add(b frac) frac {
 	return frac{a.num.mul(b.den).add(b.num.mul(a.den), 1), a.den.mul(b.den)}
 }
 
+// fracAtoms: when set, math.Exp / math.Log applications met by fracOf become uninterpreted atoms
+// identified by their argument.
+var fracAtoms *symCtx
+
 // fracOf parses an arithmetic expression with division over constants, identifiers and selectors;
 // single-assignment locals (ratLocals) are replaced by their defining expression and a receiver
 // field m.f is the symbol f.
@@ -657,6 +663,16 @@ func fracOf(info *types.Info, e ast.Expr) (frac, bool) {
 			return frac{poly{}.add(f.num, -1), f.den}, true
 		case token.ADD:
 			return f, true
+		}
+	case *ast.CallExpr:
+		if se, ok := x.Fun.(*ast.SelectorExpr); ok && fracAtoms != nil && len(x.Args) == 1 {
+			if id, ok := se.X.(*ast.Ident); ok && id.Name == "math" && (se.Sel.Name == "Exp" || se.Sel.Name == "Log") {
+				a, ok := fracOf(info, x.Args[0])
+				if !ok {
+					return frac{}, false
+				}
+				return fracAtoms.apply(strings.ToLower(se.Sel.Name), a), true
+			}
 		}
 	case *ast.BinaryExpr:
 		a, ok1 := fracOf(info, x.X)
@@ -1513,4 +1529,138 @@ func (c *Ctx) symmetrisationLoop(rel, name string) bool {
 		}
 	})
 	return found
+}
+
+// checkPijAnalytic: "analytical formulas and eigen-decomposition based values agree wherever both
+// exist". For the models with a closed-form Pij (JC, K2P) every expression the method can return
+// is one of the entries Σ_k R[i][k]·L[k][j]·exp(λ_k·l) of R·exp(Λl)·L computed from the literal
+// eigen system of the same model, and every distinct entry of that matrix is returned by some
+// branch — compared as rational functions of the parameter with exp(·) as an uninterpreted atom
+// identified by its argument (exact arithmetic on the source literals).
+func (c *Ctx) checkPijAnalytic() {
+	L := c.L
+	L.Rule("pij-analytic", "for JC and K2P the expressions returned by the analytical Pij(i, j, l) are exactly the distinct entries of R·exp(Λ·l)·L built from the literal eigenvectors and eigenvalues of the same model (rational functions of the parameter, exp as an uninterpreted function of its argument): the closed form and the eigen decomposition describe the same P(t)")
+	for _, mname := range []string{"JCModel", "K2PModel"} {
+		label := "models/dna.(*" + mname + ").Pij"
+		efd, pk := c.methodDecl("models/dna", mname, "Eigens")
+		pfd, _ := c.methodDecl("models/dna", mname, "Pij")
+		if efd == nil || pfd == nil {
+			L.Unknown("anchor", label, "function resolves", "-", "Eigens or Pij not found")
+			continue
+		}
+		info := pk.TypesInfo
+		sc := &symCtx{}
+		fracAtoms = sc
+		// eigen system
+		ratLocals = singleAssignLocals(info, efd)
+		Lm, ok1 := ratMatrix(info, denseLiteralAssigned(info, efd, resultNames(efd, 1, "leftvectors")...))
+		Rm, ok2 := ratMatrix(info, denseLiteralAssigned(info, efd, resultNames(efd, 2, "rightvectors")...))
+		vals := sliceLiteralAssigned(efd, resultNames(efd, 0, "val")...)
+		var lam []frac
+		okLam := len(vals) == 4
+		for _, e := range vals {
+			f, ok := fracOf(info, e)
+			if !ok {
+				okLam = false
+			}
+			lam = append(lam, f)
+		}
+		if !ok1 || !ok2 || !okLam {
+			fracAtoms = nil
+			L.Unknown("pij-analytic", label, "eigen system", c.P.Pos(efd.Pos()), "the eigen system is not a literal of constants and parameter expressions")
+			continue
+		}
+		// the branch-length parameter of Pij: its last parameter
+		lname := ""
+		if ps := pfd.Type.Params.List; len(ps) > 0 {
+			last := ps[len(ps)-1]
+			if len(last.Names) > 0 {
+				lname = last.Names[len(last.Names)-1].Name
+			}
+		}
+		lsym := fracSym(lname)
+		var entries []frac
+		for i := 0; i < 4; i++ {
+			for j := 0; j < 4; j++ {
+				sum := fracConst(0, 1)
+				for k := 0; k < 4; k++ {
+					coef := new(big.Rat).Mul(Rm[i][k], Lm[k][j])
+					if coef.Sign() == 0 {
+						continue
+					}
+					term := frac{polyConst(coef), polyConst(big.NewRat(1, 1))}
+					if !(poly{}.add(lam[k].num, 1).isZero()) { // exp(0·l) = 1
+						term = term.mul(sc.apply("exp", lam[k].mul(lsym)))
+					}
+					sum = sum.add(term)
+				}
+				dup := false
+				for _, e := range entries {
+					if e.eq(sum) {
+						dup = true
+					}
+				}
+				if !dup {
+					entries = append(entries, sum)
+				}
+			}
+		}
+		// what Pij returns
+		ratLocals = singleAssignLocals(info, pfd)
+		var rets []frac
+		okRet := true
+		ast.Inspect(pfd, func(n ast.Node) bool {
+			rs, ok := n.(*ast.ReturnStmt)
+			if !ok || len(rs.Results) != 1 {
+				return true
+			}
+			f, ok := fracOf(info, rs.Results[0])
+			if !ok {
+				okRet = false
+				return true
+			}
+			rets = append(rets, f)
+			return true
+		})
+		fracAtoms = nil
+		if !okRet || len(rets) == 0 {
+			L.Unknown("pij-analytic", label, "returned expressions", c.P.Pos(pfd.Pos()), "a returned expression is not arithmetic over the parameter, the branch length and exp()")
+			continue
+		}
+		if os.Getenv("VERIF_DEBUG_PIJ") != "" {
+			for _, e := range entries {
+				fmt.Fprintf(os.Stderr, "PIJ %s entry: (%s) / (%s)\n", mname, e.num.String(), e.den.String())
+			}
+			for _, e := range rets {
+				fmt.Fprintf(os.Stderr, "PIJ %s ret: (%s) / (%s)\n", mname, e.num.String(), e.den.String())
+			}
+			for _, at := range sc.atoms {
+				fmt.Fprintf(os.Stderr, "PIJ %s atom %s: (%s)/(%s)\n", mname, at.name, at.args[0].num.String(), at.args[0].den.String())
+			}
+		}
+		hit := make([]bool, len(entries))
+		stray := 0
+		for _, r := range rets {
+			found := false
+			for k, e := range entries {
+				if e.eq(r) {
+					hit[k] = true
+					found = true
+				}
+			}
+			if !found {
+				stray++
+			}
+		}
+		missing := 0
+		for _, h := range hit {
+			if !h {
+				missing++
+			}
+		}
+		L.Check(stray == 0 && missing == 0, "pij-analytic", label, "closed form = R·exp(Λl)·L", c.P.Pos(pfd.Pos()),
+			fmt.Sprintf("%d returned expression(s), %d distinct entries of R·exp(Λl)·L, each matched", len(rets), len(entries)),
+			fmt.Sprintf("%d returned expression(s) are not an entry of R·exp(Λl)·L of the model's own eigen system and %d distinct entries are never returned: the analytical and the eigen-decomposition transition probabilities disagree", stray, missing))
+	}
+	L.Floor("pij-analytic", 1, "JC and K2P")
 }
